@@ -105,3 +105,9 @@ Theorem license_filter_is_stream : forall master entries groups qs,
   = map (fun q => BOk (accepted_by_stream groups (license_stream master entries (fst q)) (snd q))) qs.
 Proof. exact license_filter_is_stream_proof. Qed.
 Print Assumptions license_filter_is_stream.
+
+(* a nested group denotes the concrete members reachable through its references, whatever the order
+   of the definitions (closure is what Licenses.groups is compared against) *)
+Theorem closure_reach : forall raw n g x, In x (closure raw n g) <-> reach raw n g x.
+Proof. exact closure_reach_proof. Qed.
+Print Assumptions closure_reach.
